@@ -235,6 +235,19 @@ void SCPI_RegSet(scpi_t * context, scpi_reg_name_t name, scpi_reg_val_t val) {
                 break;
             }
             case SCPI_REG_CLASS_ENAB:
+            {
+                /* enable mask changed - re-evaluate the summary bit of the group */
+                scpi_bool_t summary = (SCPI_RegGet(context, register_group.event) & val) != 0;
+
+                name = register_group.parent_reg;
+                val = SCPI_RegGet(context, register_group.parent_reg);
+                if (summary) {
+                    val |= register_group.parent_bit;
+                } else {
+                    val &= ~(register_group.parent_bit);
+                }
+                break;
+            }
             case SCPI_REG_CLASS_NTR:
             case SCPI_REG_CLASS_PTR:
                 return;
